@@ -437,8 +437,7 @@ example : resolveImport Expected.C16.words exFS ["gp"] ["", "w"] ["_.go"] ["main
 
 /-- **The imports of a main file below GOPATH/src are resolved from its directory, by the Go rule** — full
     strength: for every tree, absolute GOPATH, directory `r` of the input file below GOPATH/src, working
-    directory and import path without vendor element (F16-4 repaired by 8825ce6: mainRoot; the second attempt
-    starts from the same directory, so it changes nothing here). -/
+    directory and import path without vendor element (F16-4 repaired by 8825ce6: mainRoot). -/
 theorem main_imports_from_source_dir (f : FS) (goPath wd : Path) (r P : List String) (file : String)
     (h : wfTree f goPath r P = true) (habs : isRooted goPath = true) (hne : r ≠ []) (hv : "vendor" ∉ P.dropLast) :
     resolvedDir (resolveImport Expected.C16.words f goPath wd (goPath ++ ["src"] ++ r ++ [file]) [Expected.C16.words.mainID] P) =
@@ -481,20 +480,12 @@ theorem main_without_file_sees_no_vendor (f : FS) (goPath wd : Path) (P : List S
   rw [lookup_noRoot f goPath P hgo hrel hP hne]
   cases Spec.isDir f (goPath ++ ["src"] ++ P) <;> simp [resolvedDir]
 
-/-- Domain of the theorem about the imports of a package found below GOPATH/src: the Go rule resolves the import
-    from the importing directory, or the second attempt of importSrc has no other place to start from (no input
-    file, or an input file that is not below GOPATH/src).  Outside: class `retried-from-main-location`, F16-11. -/
-def domRetry (f : FS) (goPath wd name : Path) (r P : List String) : Bool :=
-  (Spec.resolve f (goPath ++ ["src"]) r P).isSome ||
-  (match rootFromSourceLocation Expected.C16.words wd name goPath with
-   | none => true
-   | some root => root == [Expected.C16.words.noRoot])
-
 /-- **The imports of a package are resolved from its own directory, by the Go rule** (`r`: the directory of the
-    importing package below GOPATH/src, as handed on by importSrc — see `subroot_is_found_dir`), on `domRetry`. -/
-theorem imports_from_package_dir_partial (f : FS) (goPath wd name : Path) (r P : List String)
-    (h : wfTree f goPath r P = true) (hne : r ≠ []) (hmain : r ≠ ["main"]) (hv : "vendor" ∉ P.dropLast)
-    (hd : domRetry f goPath wd name r P = true) :
+    importing package below GOPATH/src, as handed on by importSrc — see `subroot_is_found_dir`) — full strength
+    since the repair of F16-11 (657b966): for every tree, GOPATH, working directory, input file, importing
+    directory and import path without vendor element; a failed resolution is not tried again from anywhere else. -/
+theorem imports_from_package_dir (f : FS) (goPath wd name : Path) (r P : List String)
+    (h : wfTree f goPath r P = true) (hne : r ≠ []) (hmain : r ≠ ["main"]) (hv : "vendor" ∉ P.dropLast) :
     resolvedDir (resolveImport Expected.C16.words f goPath wd name (pathOf r) P) =
       some (Spec.resolve f (goPath ++ ["src"]) r P) := by
   have D := wfTree_sound f goPath r P h
@@ -506,57 +497,39 @@ theorem imports_from_package_dir_partial (f : FS) (goPath wd name : Path) (r P :
   have h2 : W.vendor = "vendor" := rfl
   have h3 : P.dropLast.contains "vendor" = false := by simpa using hv
   have h4 : W.mainRoot = true := rfl
+  have h7 : W.retry = false := rfl
   have h5 : (pathOf r == [W.mainID]) = false := by
     rw [hpo, beq_eq_false_iff_ne]; exact hmain
   have h6 : isPathRelative (pathOf r) = false := by rw [hpo]; exact isPathRelative_norm r D.normR
   simp only [isPathRelative_norm P D.normP, Bool.false_eq_true, if_false, h1, h2, h3, Bool.and_false, h4, Bool.not_true,
-    h5, h6]
+    h5, h6, h7, Bool.not_false, if_true]
   cases hl : lookup W f goPath (pathOf r) P with
   | found d rp => rw [hl] at hspec; simpa [DirR.toOpt, resolvedDir] using hspec
+  | notFound => rw [hl] at hspec; simpa [DirR.toOpt, resolvedDir] using hspec
   | err => rw [hl] at hspec; simp [DirR.toOpt] at hspec
   | fuel => rw [hl] at hspec; simp [DirR.toOpt] at hspec
-  | notFound =>
-    rw [hl] at hspec
-    have hnone : Spec.resolve f (goPath ++ ["src"]) r P = none := by
-      simpa [DirR.toOpt] using hspec.symm
-    rw [hnone]
-    simp only [domRetry, hnone, Option.isSome_none, Bool.false_or] at hd
-    cases hloc : rootFromSourceLocation W wd name goPath with
-    | none => simp [resolvedDir]
-    | some root =>
-      rw [hloc] at hd
-      have hroot : root = [W.noRoot] := by simpa using hd
-      subst hroot
-      simp only
-      rw [lookup_noRoot f goPath P D.goodGo D.relGo D.normP D.neP]
-      have hgd : Spec.isDir f (goPath ++ ["src"] ++ P) = false := by
-        unfold Spec.resolve at hnone
-        split at hnone
-        · cases hnone
-        · split at hnone
-          · cases hnone
-          · rename_i hx; simpa using hx
-      have hgd' : Spec.isDir f (goPath ++ "src" :: P) = false := by simpa using hgd
-      simp [hgd', resolvedDir]
 
-/-- non-vacuity: inside the domain with an input file below GOPATH/src (the import resolves from app/cmd) -/
-example : domRetry exFS ["gp"] ["", "w"] ["gp", "src", "app", "cmd", "main.go"] ["app", "cmd"] ["lib"] = true ∧
+/-- non-vacuity: an input file below GOPATH/src, the import resolves from app/cmd -/
+example : wfTree exFS ["gp"] ["app", "cmd"] ["lib"] = true ∧
     resolveImport Expected.C16.words exFS ["gp"] ["", "w"] ["gp", "src", "app", "cmd", "main.go"] ["app", "cmd"] ["lib"] =
       .found ["gp", "src", "app", "vendor", "lib"] ["app", "vendor"] := by decide
 
-/-- F16-11 (open): with the main file GOPATH/src/app/main.go, package `other` (not below app) importing `lib`
-    gets app/vendor/lib from importSrc's second attempt; the Go rule finds nothing (class `retried-from-main-location`). -/
+/-- F16-11 (repaired by 657b966): with the main file GOPATH/src/app/main.go, package `other` (not below app)
+    importing `lib` finds nothing, as by the Go rule; with the facts before the repair (`retryWords`: a second
+    attempt from the location of the main file) the model reproduces the finding: app/vendor/lib. -/
 def retryFS : FS :=
   { dirs := [["gp"], ["gp", "src"], ["gp", "src", "app"], ["gp", "src", "app", "vendor"], ["gp", "src", "app", "vendor", "lib"],
              ["gp", "src", "other"]],
     files := [["gp", "src", "app", "main.go"], ["gp", "src", "app", "vendor", "lib", "lib.go"], ["gp", "src", "other", "other.go"]],
     mapfs := true }
 
-theorem retried_from_main_location_witness :
-    domRetry retryFS ["gp"] ["", "w"] ["gp", "src", "app", "main.go"] ["other"] ["lib"] = false ∧
-    resolveImport Expected.C16.words retryFS ["gp"] ["", "w"] ["gp", "src", "app", "main.go"] ["other"] ["lib"] =
+example :
+    resolveImport Expected.C16.words retryFS ["gp"] ["", "w"] ["gp", "src", "app", "main.go"] ["other"] ["lib"] = .notFound ∧
+    Spec.resolve retryFS ["gp", "src"] ["other"] ["lib"] = none ∧
+    resolveImport Expected.C16.words retryFS ["gp"] ["", "w"] ["gp", "src", "app", "main.go"] ["main"] ["lib"] =
       .found ["gp", "src", "app", "vendor", "lib"] ["app", "vendor"] ∧
-    Spec.resolve retryFS ["gp", "src"] ["other"] ["lib"] = none := by
+    resolveImport Expected.C16.retryWords retryFS ["gp"] ["", "w"] ["gp", "src", "app", "main.go"] ["other"] ["lib"] =
+      .found ["gp", "src", "app", "vendor", "lib"] ["app", "vendor"] := by
   decide
 
 /-- F16 / F16-4 / F16-5 / F16-6 (repaired by 097e643 and 8825ce6): the main package of GOPATH/src/app, which has
